@@ -12,7 +12,7 @@ AddUp == /\ stage = "ups" /\ Len(cfg.ups) < MaxUps
          /\ \E b \in 1..5 : cfg' = [cfg EXCEPT !.ups = Append(@, b)]
          /\ UNCHANGED stage
 PickStretch == /\ stage = "ups"
-               /\ \E off \in 0..12, len \in {sp2 \in {5, 8} : TRUE}, o \in {0, 5, 1000} :
+               /\ \E off \in 0..12, len \in {1, 2, 5, 8}, o \in {0, 5, 1000} :
                       cfg' = [cfg EXCEPT !.lo = off, !.len = len, !.origin = o]
                /\ stage' = "done"
 Next == PickShape \/ AddUp \/ PickStretch
